@@ -598,6 +598,145 @@ pub fn replay_c19p(case: serde_json::Value) -> R<CaseMeta> {
     c19p_run(&serde_json::from_value(case).expect("harness: bad C19P case"))
 }
 
+
+// ---------------------------------------------------------------------------------------------
+// C02 — large indexes: thousands of keys, snapshots and log records far beyond buffer sizes
+
+pub const C02_LARGE_RULE: &str = "large indexes: 0-4000 keys (String keys r/NNNNN, or u64 keys i*0x9E3779B97F4A7C15 whose encoded byte order differs from their numeric order) are put with three shared small contents; a checkpoint at a generated position, a remove_range over a generated sub-range (one log record of up to ~100 KB), optionally another checkpoint; then the handle is dropped and the store reopened; a few more puts and removes and a second reopen; N in {1 (<=600 keys), 7, 100, 10000}, both sync modes. Oracle: after each reopen the index holds exactly the model's keys with {blake3(content), length}, known_blobs() equals the model's reference counts, and sampled keys read back their bytes. non-trivial = >=300 keys at a reopen AND a range removal of >=2 keys or a checkpoint with log records after it; distinct by case hash";
+
+#[derive(Clone, Debug, Serialize, Deserialize)]
+pub struct C02LCase {
+    pub int_keys: bool,
+    pub n_keys: u16,
+    pub n: u64,
+    pub cp1: Option<u16>,
+    pub rr: Option<(u16, u16)>,
+    pub cp2: bool,
+    pub extra: Vec<(u16, i8)>,
+    pub asyn: bool,
+}
+
+fn c02l_run_k<K: HKey>(case: &C02LCase, mk: impl Fn(u32) -> K) -> R<CaseMeta> {
+    let mut m = CaseMeta { evals: 2, ..Default::default() };
+    let scratch = Scratch::new("c02l");
+    let db = scratch.db();
+    let cfg = Config { sync_mode: if case.asyn { SyncMode::Async } else { SyncMode::Sync }, ..cfg_n(case.n, true) };
+    let open = |what: &str| Cas::<K>::open(&db, cfg.clone()).map_err(|e| Fail::new(format!("reopen/large-index-open-fails/{}", err_path(&e)), format!("{what}: {e:?}")));
+    let mut model: BTreeMap<K, usize> = BTreeMap::new();
+    let put = |cas: &Cas<K>, k: K, c: usize| -> R<()> {
+        let mut tx = cas.put(k).map_err(|e| Fail::new("op-err/put", format!("{e:?}")))?;
+        tx.write(&pool_content(c)).map_err(|e| Fail::new("op-err/write", format!("{e:?}")))?;
+        tx.finish().map_err(|e| Fail::new("op-err/finish", format!("{e:?}")))
+    };
+    let check = |cas: &Cas<K>, model: &BTreeMap<K, usize>, what: &str| -> R<()> {
+        let g = cas.read_index_state();
+        if g.len() != model.len() {
+            fail!("reopen/large-index-state-differs", "{what}: the index holds {} keys, the model {}", g.len(), model.len());
+        }
+        let mut rc: BTreeMap<[u8; 32], u32> = BTreeMap::new();
+        for (k, c) in model {
+            let content = pool_content(*c);
+            let h = b3(&content);
+            *rc.entry(h).or_default() += 1;
+            match g.get_item(k) {
+                Some(i) if *i.blob_hash.as_bytes() == h && i.blob_size == content.len() as u64 => {}
+                other => fail!("reopen/large-index-state-differs", "{what}: key {k:?} maps to {other:?}, expected content {c}"),
+            }
+        }
+        let got: BTreeMap<[u8; 32], u32> = g.known_blobs().map(|(h, c)| (*h.as_bytes(), *c)).collect();
+        if got != rc {
+            fail!("reopen/large-index-refcounts", "{what}: known_blobs {:?} vs model {:?}", got.values().collect::<Vec<_>>(), rc.values().collect::<Vec<_>>());
+        }
+        drop(g);
+        for (k, c) in model.iter().step_by((model.len() / 5).max(1)) {
+            match cas.get(k) {
+                Ok(Some(b)) if b[..] == pool_content(*c)[..] => {}
+                other => fail!("reopen/large-index-read", "{what}: get({k:?}) = {:?}", other.map(|o| o.map(|b| b.len()))),
+            }
+        }
+        Ok(())
+    };
+    let mut tail_after_cp = false;
+    let mut removed = 0usize;
+    {
+        let cas = open("creating the store")?;
+        for i in 0..case.n_keys as u32 {
+            put(&cas, mk(i), (i % 3) as usize)?;
+            model.insert(mk(i), (i % 3) as usize);
+            if case.cp1 == Some(i as u16) {
+                cas.checkpoint().map_err(|e| Fail::new("op-err/checkpoint", format!("{e:?}")))?;
+                tail_after_cp = (i + 1) < case.n_keys as u32;
+            }
+        }
+        if let Some((a, b)) = case.rr {
+            // bounds by rank in the key order, so that wide ranges are wide for scrambled integer keys too
+            let keys: Vec<K> = model.keys().cloned().collect();
+            let (ka, kb) = if keys.is_empty() { (mk(a as u32), mk(b as u32)) } else { (keys[a as usize % keys.len()].clone(), keys[b as usize % keys.len()].clone()) };
+            let (lo, hi) = if ka <= kb { (ka, kb) } else { (kb, ka) };
+            let before = model.len();
+            cas.remove_range(lo.clone()..=hi.clone()).map_err(|e| Fail::new("op-err/remove_range", format!("{e:?}")))?;
+            model.retain(|k, _| *k < lo || *k > hi);
+            removed = before - model.len();
+        }
+        if case.cp2 {
+            cas.checkpoint().map_err(|e| Fail::new("op-err/checkpoint", format!("{e:?}")))?;
+        }
+    }
+    let big = model.len() >= 300 || case.n_keys >= 300;
+    {
+        let cas = open("first reopen")?;
+        check(&cas, &model, "after the first reopen")?;
+        for (i, c) in &case.extra {
+            let k = mk(*i as u32);
+            if *c < 0 {
+                cas.remove(&k).map_err(|e| Fail::new("op-err/remove", format!("{e:?}")))?;
+                model.remove(&k);
+            } else {
+                put(&cas, k.clone(), *c as usize % 3)?;
+                model.insert(k, *c as usize % 3);
+            }
+        }
+    }
+    let cas = open("second reopen")?;
+    check(&cas, &model, "after the second reopen")?;
+    if big && (removed >= 2 || tail_after_cp) {
+        m.nontrivial.push(hash_json(case));
+    }
+    m.class(if case.int_keys { "large_u64_keys" } else { "large_string_keys" });
+    m.class(&format!("large_n_{}", case.n));
+    if removed * 12 > 8192 {
+        m.class("remove_record_gt_8k");
+    }
+    if model.len() * 50 > 131_072 {
+        m.class("snapshot_gt_128k");
+    }
+    Ok(m)
+}
+
+fn c02l_run(case: &C02LCase) -> R<CaseMeta> {
+    if case.int_keys {
+        c02l_run_k::<u64>(case, |i| (i as u64).wrapping_mul(0x9E37_79B9_7F4A_7C15))
+    } else {
+        c02l_run_k::<String>(case, |i| format!("r/{i:05}"))
+    }
+}
+
+pub fn run_c02_large(ctx: &Ctx, acc: &Mutex<Acc>) -> Option<Violation> {
+    let cases = ctx.tier.scale(6, 10);
+    let strat = || {
+        (any::<bool>(), prop_oneof![1 => 0u16..50, 2 => 300u16..1500, 4 => 1500u16..4000], prop_oneof![Just(1u64), Just(7u64), Just(100u64), Just(10_000u64)], any::<bool>()).prop_flat_map(|(int_keys, n_keys, n, asyn)| {
+            let n_keys = if n == 1 { n_keys.min(600) } else { n_keys };
+            let nk = n_keys.max(1);
+            (proptest::option::weighted(0.6, 0..nk), proptest::option::weighted(0.7, prop_oneof![2 => (0..nk / 8 + 1, nk - nk / 8 - 1..nk), 1 => (0..nk / 2 + 1, nk / 4..nk), 1 => (0..nk, 0..nk)]), any::<bool>(), vec((0..nk + 10, -1i8..3), 0..6)).prop_map(move |(cp1, rr, cp2, extra)| C02LCase { int_keys, n_keys, n, cp1, rr, cp2, extra, asyn })
+        })
+    };
+    campaign(ctx, acc, "large-index", "C02L", cases, 30, |_| strat(), c02l_run)
+}
+
+pub fn replay_c02l(case: serde_json::Value) -> R<CaseMeta> {
+    c02l_run(&serde_json::from_value(case).expect("harness: bad C02L case"))
+}
+
 // =============================================================================================
 // C10
 
